@@ -5,6 +5,21 @@ ROOT = os.path.dirname(os.path.abspath(__file__))
 
 # id -> dict(text, note, technique, design_ref, engine)
 CLAIMED = {
+ "C13": dict(
+    text="Lean 4 theorems for all (fct,arg) bit patterns and all stream lengths: codec_roundtrip, ring_decode/ring_roundtrip (free-running "
+         "head/tail, ring wrap, SIZE-2 flush rule), ring_index_wrap (BitVec 64 across the 2^64 wrap), and on a model with any number of "
+         "deferring threads, readers, barriers and reclaimer passes in any interleaving of API-level steps: defer_exactly_once_in_order, "
+         "runs_after_gp, barrier_runs_all_prior, unregister_runs_all_prior, reregister_ok (+ reregister_aborts_unfixed as record of the "
+         "repaired defect). Constants (queue size, mark, bit) regenerated from the source each run and their side conditions re-proved. "
+         "Tie: the real urcu-defer-impl.h driven with adversarial streams (odd/mark arguments, odd-address and faulting function words, "
+         "counters near 2^63/2^64, entries across the ring wrap); every stored word, counter and invocation replayed on the model; "
+         "independent C oracle. Partial: owner/reclaimer interleaving at single-access granularity under TSO and the defer thread's futex "
+         "handshake (C13_full) are not covered yet.",
+    note="Trusted: Lean kernel; GpSpec as the meaning of synchronize_rcu; each API step atomic under rcu_defer_mutex (enqueue interleaves "
+         "between snapshot/gp/run); harness shims (TLS array, mutex/thread/malloc hooks, SIGSEGV-simulated calls for non-callable "
+         "function words); malloc succeeds; 64-bit long.",
+    technique="Lean 4 proofs (codec round-trip by induction, ring/registration invariants) + differential replay of the real source on adversarial streams",
+    design_ref="§4 C13, §5", engine="defer"),
  "C02": dict(
     text="Lean 4 theorems on two x86-TSO handshake models, any number of readers, all interleavings and all placements of spurious/EINTR/EAGAIN "
          "futex returns: no_lost_wakeup (a leader asleep on rcu_gp.futex always has a reader that will still wake it), gp_futex_range, "
